@@ -6,6 +6,10 @@ it replaces).  A handler is `State → Option State`; `none` is "returned an err
 turns into "no state change".  Names arrive lower-cased (and, for Register, space-stripped) —
 `strings.ToLower`/`ReplaceAll` are applied by the harness with Go's own functions; coin strings
 arrive together with the result of the chain's own parser (an oracle input the theorems quantify over).
+Address strings: the same account has several valid bech32 spellings (lower and upper case); some
+handlers compare / key by the string as sent, others by `AccAddress.String()` — the model keeps
+that distinction: `State.canon` maps every address string in play to its canonical spelling
+(absent = not a valid address), handlers receive the signer as sent (`c`) and canonical (`cc`).
 Core Lean only.
 -/
 import Canine.Basic.Bank
@@ -54,6 +58,7 @@ structure State where
   blocked : List String            -- addresses SendCoinsFromModuleToAccount refuses
   moduleAcc : String               -- rns module account address
   polAcc : String                  -- protocol-owned-liquidity account
+  canon : AMap String String       -- address string ↦ canonical bech32 (`AccAddressFromBech32(x).String()`)
   deriving DecidableEq, Repr, Inhabited
 
 inductive Op where
@@ -110,6 +115,9 @@ def isLive (s : State) (key : String) (h : Int) : Bool :=
   | some w => decide (h ≤ w.expires)
   | none => false
 
+/-- `sdk.AccAddressFromBech32(x)` followed by `.String()`; `none` = not a valid address -/
+def acct (s : State) (x : String) : Option String := AMap.get s.canon x
+
 /-- `SendCoinsFromModuleToAccount`: refuses blocked recipients. -/
 def sendFromModule (s : State) (dst : String) (c : Coins) : Option Bank :=
   if s.blocked.contains dst then none else Bank.send s.bank s.moduleAcc dst c
@@ -138,6 +146,8 @@ def regExpiry (s : State) (key creator : String) (h term : Int) : Option Int :=
 def setPrimaryIf (s : State) (creator key : String) (flag : Bool) : State :=
   if flag || !(hasPrimary s creator) then { s with primary := AMap.set s.primary creator key } else s
 
+/-- `RegisterRNSName`: everything is done in the name of `owner.String()` — `creator` here is the
+canonical spelling of the signer -/
 def register (s : State) (h : Int) (creator lname data : String) (years : Int) (setPrimary : Bool) :
     Option State := do
   let (name, tld) ← nameAndTLD lname
@@ -170,27 +180,32 @@ def delist (s : State) (creator lname : String) : Option State := do
   req (w.value = sale.owner)
   some { s with forsale := AMap.erase s.forsale lname }
 
-def buy (s : State) (h : Int) (creator lname : String) : Option State := do
+/-- `BuyName`: the own-name test and the stored owner use the signer string as sent (`creator`),
+the payment comes from the parsed account (`cc`) and goes to the parsed lister -/
+def buy (s : State) (h : Int) (creator cc lname : String) : Option State := do
   let sale ← AMap.get s.forsale lname
   let (n, tld) ← nameAndTLD lname
   let w ← AMap.get s.names (nameKey n tld)
   req (h ≤ w.expires)
   req (w.value ≠ creator)
   req (w.value = sale.owner)
+  let seller ← acct s sale.owner
   let (d, amt) ← sale.price
   let coins ← Bank.newCoins d amt
-  let b1 ← Bank.send s.bank creator s.moduleAcc coins
-  let b2 ← sendFromModule { s with bank := b1 } sale.owner coins
+  let b1 ← Bank.send s.bank cc s.moduleAcc coins
+  let b2 ← sendFromModule { s with bank := b1 } seller coins
   some { s with bank := b2,
                 forsale := AMap.erase s.forsale sale.name,
                 names := AMap.set s.names (nameKey n tld) { w with value := creator, data := "{}" } }
 
-/-- Bid first returns the escrow of the bid it replaces (same bidder ++ name index), if any. -/
+/-- Bid first returns the escrow of the bid it replaces (same bidder ++ name index), if any,
+to the parsed recorded bidder. -/
 def refundOld (s : State) (index : String) : Option Bank :=
   match AMap.get s.bids index with
-  | some old => old.price.bind (fun oldCoins => sendFromModule s old.bidder oldCoins)
+  | some old => (acct s old.bidder).bind (fun ob => old.price.bind (fun oldCoins => sendFromModule s ob oldCoins))
   | none => some s.bank
 
+/-- `AddBid`: index and recorded bidder are the canonical spelling (`creator` here is canonical) -/
 def bid (s : State) (creator lname priceRaw : String) (price : Option Coins) : Option State := do
   let coins ← price
   let index := creator ++ lname
@@ -200,11 +215,13 @@ def bid (s : State) (creator lname priceRaw : String) (price : Option Coins) : O
                 bids := AMap.set s.bids index
                   { index := index, name := lname, bidder := creator, priceRaw := priceRaw, price := price } }
 
-def cancelBid (s : State) (creator lname : String) : Option State := do
+/-- `CancelOneBid`: the bid is looked up and removed under the signer string as sent (`creator`),
+the refund goes to the parsed account (`cc`) -/
+def cancelBid (s : State) (creator cc lname : String) : Option State := do
   let index := creator ++ lname
   let b ← AMap.get s.bids index
   let coins ← b.price
-  let b1 ← sendFromModule s creator coins
+  let b1 ← sendFromModule s cc coins
   some { s with bank := b1, bids := AMap.erase s.bids index }
 
 def acceptBid (s : State) (h : Int) (creator lname bidder : String) : Option State := do
@@ -277,13 +294,19 @@ def makePrimary (s : State) (creator lname : String) : Option State := do
   let (n, tld) ← nameAndTLD lname
   some { s with primary := AMap.set s.primary creator (nameKey n tld) }
 
+def Op.creator : Op → String
+  | .register c .. | .list c .. | .delist c .. | .buy c .. | .bid c .. | .cancelBid c ..
+  | .acceptBid c .. | .transfer c .. | .update c .. | .addRecord c .. | .delRecord c ..
+  | .init c .. | .makePrimary c .. => c
+
+
 /-- `IsValidName`: the regular expression `^[\\w-]+$` (ASCII word characters and '-'). -/
 def isValidName (s : String) : Bool :=
   !s.isEmpty && s.all (fun c => c.isAlphanum || c = '_' || c = '-')
 
 /-- `ValidateBasic`, the stateless gate in front of every handler, on the name exactly as sent
 (not lower-cased): a recognisable TLD, and for Register/RegisterName/MakePrimary/AddRecord a valid name part.
-Address well-formedness is not modelled (the harness sends well-formed addresses only). -/
+Address well-formedness is checked in `step` through the `canon` table. -/
 def validateBasic : Op → Bool
   | .register _ raw .. | .makePrimary _ raw .. | .addRecord _ raw .. => match nameAndTLD raw with
       | some (n, _) => isValidName n
@@ -293,32 +316,40 @@ def validateBasic : Op → Bool
   | .delRecord _ raw .. => (nameAndTLD raw).isSome
   | .init .. => true
 
-def handle (s : State) (h : Int) : Op → Option State
-  | .register c _ n d y p => register s h c n d y p
+/-- the handler of each message; `cc` is the canonical spelling of the signer (`creator` as sent
+is inside the op).  Register, Bid, AcceptBid, Transfer and Update work with `owner.String()`;
+List, Delist, AddRecord, DelRecord, Init and MakePrimary with the string as sent; Buy and
+CancelBid mix the two. -/
+def handle (s : State) (h : Int) (cc : String) : Op → Option State
+  | .register _ _ n d y p => register s h cc n d y p
   | .list c _ n pr p => list s h c n pr p
   | .delist c _ n => delist s c n
-  | .buy c _ n => buy s h c n
-  | .bid c _ n pr p => bid s c n pr p
-  | .cancelBid c _ n => cancelBid s c n
-  | .acceptBid c _ n b => acceptBid s h c n b
-  | .transfer c _ n r => transfer s h c n r
-  | .update c _ n d => update s h c n d
+  | .buy c _ n => buy s h c cc n
+  | .bid _ _ n pr p => bid s cc n pr p
+  | .cancelBid c _ n => cancelBid s c cc n
+  | .acceptBid _ _ n b => acceptBid s h cc n b
+  | .transfer _ _ n r => transfer s h cc n r
+  | .update _ _ n d => update s h cc n d
   | .addRecord c _ n r rl v d => addRecord s h c n r rl v d
   | .delRecord c _ n => delRecord s h c n
   | .init c g => init s h c g
   | .makePrimary c _ n => makePrimary s c n
 
-/-- A delivered message: `ValidateBasic`, then the handler. -/
+/-- further address fields `ValidateBasic` parses -/
+def otherAddrsValid (s : State) : Op → Bool
+  | .transfer _ _ _ r => (acct s r).isSome
+  | .acceptBid _ _ _ b => (acct s b).isSome
+  | _ => true
+
+/-- A delivered message: `ValidateBasic` (name shape, address well-formedness), then the handler
+with the signer's canonical address. -/
 def step (s : State) (h : Int) (op : Op) : Option State :=
-  if validateBasic op then handle s h op else none
+  if validateBasic op && otherAddrsValid s op then
+    (acct s op.creator).bind (fun cc => handle s h cc op)
+  else none
 
 /-- Total step: a failed message leaves the state as it was (baseapp discards the cache). -/
 def stepT (s : State) (h : Int) (op : Op) : State := (step s h op).getD s
-
-def Op.creator : Op → String
-  | .register c .. | .list c .. | .delist c .. | .buy c .. | .bid c .. | .cancelBid c ..
-  | .acceptBid c .. | .transfer c .. | .update c .. | .addRecord c .. | .delRecord c ..
-  | .init c .. | .makePrimary c .. => c
 
 end Canine.Rns
 
